@@ -208,3 +208,57 @@ def scan_facts(prog, mapb, nfields):
 def _off(a: Aff):
     s = str(a)
     return f" {s}" if s.startswith("-") else f" + {s}"
+
+
+def truncate_facts(prog, mapb, nfields):
+    """For every `self._stream.truncate(...)` in map_blocks after the scan: the cut is at the value that becomes _eof, and it is
+    reached only when that offset lies before the end of the file."""
+    from ..affine import StreamInterp
+    from ..canon import path_conditions
+    from ..core import call_name
+
+    loops = [s for s in mapb.node.body if isinstance(s, ast.While)]
+    if len(loops) != 1:
+        raise AnalysisError("map_blocks: expected exactly one scan loop (while) at the top level")
+    loop = loops[0]
+    rec_cls = prog.cls(f"{UKV}:UKVRecord")
+    sc = analyse_scan(prog, mapb, loop, {HS: nfields, "_FILE_HEADER": 3}, rec_cls)
+    after = mapb.node.body[mapb.node.body.index(loop) + 1:]
+    it = StreamInterp(prog, mapb, {HS: nfields, "_FILE_HEADER": 3}, rec_cls)
+    it.env, it.S = dict(sc.head_env), None
+    out = []
+    for top in after:
+        cuts = [c for c in ast.walk(top) if isinstance(c, ast.Call) and call_name(c) == "self._stream.truncate"]
+        for c in cuts:
+            eof = it.env.get("self._eof")
+            if not c.args:
+                out.append(Fact(False, c, "", "truncate() at the current stream position, which the scan left somewhere inside or behind the torn tail"))
+                continue
+            stored_inside = {n.id for n in ast.walk(top) if isinstance(n, ast.Name) and isinstance(n.ctx, ast.Store)}
+            if stored_inside & {n.id for n in ast.walk(c.args[0]) if isinstance(n, ast.Name)}:
+                raise AnalysisError("map_blocks: the truncation offset is rebound next to the truncate call - not modelled")
+            arg = it.ev(c.args[0])
+            if not isinstance(eof, Aff):
+                # _eof not stored yet: compare with the value the later store uses
+                later = [x for s in after for x in walk_no_nested(s) if isinstance(x, ast.Assign) and "self._eof" in stored_paths(x)]
+                eof = it.ev(later[-1].value) if later else None
+            if not (isinstance(arg, Aff) and isinstance(eof, Aff) and arg == eof):
+                out.append(Fact(False, c, "", f"the stream is cut at `{short(c.args[0], 40)}`, which is not the offset that becomes _eof (the end of the last complete record): committed records may be cut"))
+                continue
+            conds = path_conditions(mapb.node, c)
+            shorter = False
+            for t in conds:
+                g = it.relation(t, True)   # t holds iff g > 0
+                if g is not None and (g - (Aff.sym("EOF") - arg)).is_zero():
+                    shorter = True
+                if isinstance(t, ast.Compare) and len(t.ops) == 1 and isinstance(t.ops[0], ast.NotEq):
+                    l, r = it.ev(t.left), it.ev(t.comparators[0])
+                    if isinstance(l, Aff) and isinstance(r, Aff):
+                        want = Aff.sym("EOF") - arg
+                        if ((l - r) - want).is_zero() or ((r - l) - want).is_zero():
+                            shorter = True
+            out.append(Fact(shorter, c, f"truncate({short(c.args[0], 30)}) at the end of the last complete record, only when the file is longer",
+                            f"truncate({short(c.args[0], 30)}) is not conditioned on that offset lying before the end of the file"))
+        if not cuts:
+            it.run([top]) if not isinstance(top, (ast.If,)) or not any(isinstance(x, ast.Call) and "truncate" in norm(x.func) for x in ast.walk(top)) else None
+    return out
